@@ -626,28 +626,32 @@ fn gen_anchors(f: &mut SynthFont, g: &mut Gen) {
     if propagate { f.lib_filters.push("propagateAnchors"); }
     // make sure there is something to attach: the first two non-.notdef glyphs without a mark name may be turned into marks
     let have_marks = f.glyphs.iter().filter(|x| is_mark_name(&x.name)).count();
-    let mut extra_marks = if have_marks == 0 { 1 + g.below(2) } else { g.below(2) };
+    let mut extra_marks = 2usize.saturating_sub(have_marks) + g.below(2);
     for gl in f.glyphs.iter_mut() {
         let mut gg = g.fork(24);
         if gl.name == ".notdef" { continue; }
         let is_lig = gl.name.contains('_') && !gl.name.starts_with('_');
         let mut is_mark = is_mark_name(&gl.name);
-        if !is_mark && !is_lig && extra_marks > 0 && gg.chance(1, 3) { is_mark = true; extra_marks -= 1; }
+        if !is_mark && !is_lig && extra_marks > 0 && gg.chance(1, 2) { is_mark = true; extra_marks -= 1; }
         gl.category = Some(if is_mark { "mark" } else if is_lig { "ligature" } else { "base" });
         // propagation class: a composite of exactly one translated component gets no anchors of its own
         let single_comp = gl.sources.get(&0).map(|s| s.contours.is_empty() && s.comps.len() == 1 && s.comps[0].xf[..4] == [1.0, 0.0, 0.0, 1.0]).unwrap_or(false);
         if propagate && single_comp && !is_mark { continue; }
         let mut list: Vec<(String, f64, f64)> = vec![];
+        // a mark attaches through exactly one mark anchor (with several, which one a shaper ends up using is not
+        // something the source defines); it may carry base anchors for mark-to-mark as well
+        let mark_anchor = gg.weighted(&[4, 4, 3, 1]);
         for (ai, an) in ANCHOR_NAMES.iter().enumerate() {
             let x = 100.0 + gg.below(500) as f64; let y = [700.0, -50.0, 0.0][ai] + gg.signed(60) as f64;
             if is_mark {
-                let c = gg.chance(1, 2);
-                if c { list.push((format!("_{an}"), x, y - 400.0)); if gg.chance(1, 3) { list.push((an.to_string(), x + 10.0, y + 150.0)); } } else { gg.word(); }
+                if ai == mark_anchor { list.push((format!("_{an}"), x, y - 400.0)); }
+                if gg.chance(1, 3) { list.push((an.to_string(), x + 10.0, y + 150.0)); }
+                gg.word();
             } else if is_lig {
-                if gg.chance(1, 2) { list.push((format!("{an}_1"), x * 0.5, y)); list.push((format!("{an}_2"), x * 0.5 + 300.0, y)); }
+                if gg.chance(2, 3) { list.push((format!("{an}_1"), x * 0.5, y)); list.push((format!("{an}_2"), x * 0.5 + 300.0, y)); }
                 gg.word();
             } else {
-                if gg.chance(1, 2) { list.push((an.to_string(), x, y)); }
+                if gg.chance(3, 4) { list.push((an.to_string(), x, y)); }
                 gg.word();
             }
         }
